@@ -209,3 +209,5 @@ def _replay_wm(model, ob):
     after = len(comp._metadata_stack)
     return {"confirmed": after != before, "function": "Component._with_metadata", "inputs": {"body": "raise KeyError('boom')"},
             "expected": f"stack depth {before}", "observed": f"stack depth {after}"}
+
+import contracts.c06b  # noqa: E402,F401  (_prepare_template / _maybe_bind_template: Context layers restored, shared with C03)
